@@ -151,7 +151,7 @@ func genQOps(rc *RunCtx, c QCfg) []Op {
 		var o Op
 		switch r.Weighted(weights) {
 		case 0:
-			o = Op{Kind: "pub", A: int64(r.Intn(3)) | int64(genSizeClass(r, rc.Prop))<<8, B: int64(r.Intn(8))}
+			o = Op{Kind: "pub", A: int64(r.Pick(0, 1, 2, 0, 1, 2, 3, 4, 5)) | int64(genSizeClass(r, rc.Prop))<<8, B: int64(r.Intn(8))}
 			k := r.Weighted([]int{30, 12, 8, 14, 6, 6, 6})
 			o.C = int64(k)
 			switch k {
@@ -214,6 +214,16 @@ func genQOps(rc *RunCtx, c QCfg) []Op {
 			o.Burst = true
 		}
 		add(o)
+		if o.Kind == "sub" && r.Chance(1, 4) {
+			// a command on a consumer connection at the instant its output
+			// buffer timer fires, with messages sitting in the buffer
+			sel := int64(r.Range(3, 9))
+			add(Op{Kind: "adv", A: 0, B: sel})
+			for k := r.Range(1, 3); k > 0; k-- {
+				add(Op{Kind: "pub", A: sel, S: "cotopic"})
+			}
+			add(Op{Kind: "pub", A: sel, S: "tick", B: int64(r.Intn(8)), Burst: r.Chance(1, 2)})
+		}
 	}
 	if rc.Prop == "C05" && restarts == 0 {
 		add(Op{Kind: "restart", A: int64(r.Intn(4)), B: int64(r.Intn(8)), C: int64(r.Range(1, 4))})
@@ -453,6 +463,14 @@ func (w *qWorld) exec(op Op) {
 	case "adv":
 		w.settleIfBurst()
 		d := ms(op.A)
+		if op.B > 0 {
+			// to 2 ms before the next output-buffer tick of the selected consumer
+			if co := w.liveConsumer(op.B); co != nil {
+				if u := co.untilTick(); u > 2*time.Millisecond {
+					d = u - 2*time.Millisecond
+				}
+			}
+		}
 		time.Sleep(d)
 		w.lastAdvance = d
 		w.settle()
